@@ -6,6 +6,7 @@
 
 const path = require('path');
 const fs = require('fs');
+const crypto = require('crypto');
 const os = require('os');
 const stream = require('stream');
 const readline = require('readline');
@@ -18,6 +19,10 @@ let unhandled = [];
 let planned_streams = [];
 let paused_probe = null;
 let dirty = false;
+let uncaught = [];
+// an exception thrown out of one of the reader's stream event handlers would end a real program; here it is recorded against
+// the request in progress and the driver is restarted afterwards
+process.on('uncaughtException', (e) => { uncaught.push([(e && e.constructor && e.constructor.name) || 'Error', String(e && e.message).substring(0, 200)]); dirty = true; });
 process.on('unhandledRejection', (reason) => { unhandled.push(String(reason && reason.message || reason).substring(0, 200)); });
 
 class SimCap extends Error {}
@@ -142,8 +147,44 @@ class SimRegistry extends rbql.RBQLTableRegistry {
 
 
 function plain(x) {
-    // JSON-able copy; keeps identity information out
-    return JSON.parse(JSON.stringify(x === undefined ? null : x));
+    // JSON-able copy; keeps identity information out. Values JSON cannot carry (NaN, +-Infinity, -0, undefined, Date, bigint)
+    // are tagged instead of being flattened to null / 0 / a string, so that the Python side compares what the engine emitted.
+    if (x === undefined)
+        return null;
+    return plain_value(x, 0);
+}
+
+
+function plain_value(x, depth) {
+    if (x === undefined)
+        return {'$js': 'undefined'};
+    if (x === null || typeof x == 'string' || typeof x == 'boolean')
+        return x;
+    if (typeof x == 'number') {
+        if (Number.isNaN(x) || x === Infinity || x === -Infinity)
+            return {'$js': String(x)};
+        if (Object.is(x, -0))
+            return {'$js': '-0'};
+        return x;
+    }
+    if (typeof x == 'bigint')
+        return {'$js': 'bigint', 'v': String(x)};
+    if (typeof x == 'function' || typeof x == 'symbol')
+        return {'$js': typeof x};
+    if (depth > 20)
+        return {'$js': 'deep'};
+    if (x instanceof Date)
+        return {'$js': 'Date', 'iso': Number.isNaN(x.getTime()) ? 'invalid' : x.toISOString()};
+    if (Array.isArray(x)) {
+        let out = [];
+        for (let i = 0; i < x.length; i++)
+            out.push(plain_value(x[i], depth + 1));
+        return out;
+    }
+    let out = {};
+    for (let k of Object.keys(x))
+        out[k] = plain_value(x[k], depth + 1);
+    return out;
 }
 
 
@@ -207,7 +248,7 @@ async function run_query(req) {
     out.pulls_at_write = trace.pulls_at_write;
     out.writer_events = wr.events;
     if (rows_before !== null) {
-        out.input_unchanged = JSON.stringify(rows_before) == JSON.stringify(producer.rows) && producer.rows.length == input_rows_ref.length && producer.rows.every((r, i) => r === input_rows_ref[i]);
+        out.input_unchanged = JSON.stringify(rows_before) == JSON.stringify(plain(producer.rows)) && producer.rows.length == input_rows_ref.length && producer.rows.every((r, i) => r === input_rows_ref[i]);
         out.input_after = plain(producer.rows);
     }
     let keys_after = [own_keys(producer.type != 'endless' ? producer.rows : null), own_keys(req.join_rows || null)];
@@ -216,7 +257,7 @@ async function run_query(req) {
     if (!out.headers_unchanged)
         out.headers_after = plain([req.header || null, req.join_header || null]);
     if (join_before !== null) {
-        out.join_unchanged = JSON.stringify(join_before) == JSON.stringify(req.join_rows) && req.join_rows.every((r, i) => r === join_rows_ref[i]);
+        out.join_unchanged = JSON.stringify(join_before) == JSON.stringify(plain(req.join_rows)) && req.join_rows.every((r, i) => r === join_rows_ref[i]);
     }
     return out;
 }
@@ -421,7 +462,15 @@ async function run_read(req) {
         } else {
             value = await read_all(iterator, pace, counters, max_turns);
         }
-        return {outcome: ['ok'], records: value.records, header: value.header, warnings: value.warnings, counters: counters};
+        let records = value.records;
+        if (Array.isArray(records) && records.length > 20000) {
+            // very many records: ship their number, a hash of their JSON form and both ends instead of the records themselves
+            let h = crypto.createHash('sha256');
+            for (let i = 0; i < records.length; i += 1000)
+                h.update(JSON.stringify(records.slice(i, i + 1000)));
+            records = {'$many': records.length, 'sha256': h.digest('hex'), 'head': records.slice(0, 3), 'tail': records.slice(-3)};
+        }
+        return {outcome: ['ok'], records: records, header: value.header, warnings: value.warnings, counters: counters};
     } catch (e) {
         if (e instanceof HangError) {
             dirty = true;   // an abandoned promise may still fire: the driver must be restarted
@@ -429,6 +478,7 @@ async function run_read(req) {
         }
         return {outcome: describe_error(e), counters: counters};
     } finally {
+        await turns(2);   // late events of this request's streams ('end', 'close') fire inside the request, not inside the next one
         if (tmp_path) {
             try { fs.unlinkSync(tmp_path); } catch (e) {}
         }
@@ -465,7 +515,10 @@ async function handle(req) {
                 continue;
             }
             let merged = Object.assign({}, req.common || {}, sub);
-            responses.push(await handle(merged));
+            let sub_resp = await handle(merged);
+            if (uncaught.length)
+                sub_resp.uncaught_exceptions = uncaught.splice(0);
+            responses.push(sub_resp);
         }
         return {responses: responses, dirty: dirty};
     }
@@ -482,7 +535,10 @@ async function main() {
         try {
             let req = JSON.parse(line);
             unhandled = [];
+            uncaught = [];
             resp = await handle(req);
+            if (uncaught.length)
+                resp.uncaught_exceptions = uncaught.splice(0);
             if (unhandled.length)
                 resp.unhandled_rejections = unhandled;
             if (dirty)
